@@ -30,6 +30,14 @@ def log(*a):
 def _worker(wfd, cases, run_case, next_idx, case_timeout, init):
     out = os.fdopen(wfd, "w", buffering=1)
     devnull = None
+    cov = None
+    if os.environ.get("VERIF_PYCOV"):
+        # diagnostic only: line coverage of the package under the generators (which anchored
+        # code no generated history reaches); never set by a registered check
+        import coverage
+
+        cov = coverage.Coverage(data_file=os.path.join(os.environ["VERIF_PYCOV"], ".coverage"), data_suffix=True, source_pkgs=["ciderpress"])
+        cov.start()
     try:
         if init is not None:
             init()
@@ -53,6 +61,12 @@ def _worker(wfd, cases, run_case, next_idx, case_timeout, init):
             out.write(json.dumps({"done": i, "res": res}) + "\n")
             out.flush()
     finally:
+        if cov is not None:
+            try:
+                cov.stop()
+                cov.save()
+            except Exception:
+                pass
         try:
             out.flush()
         except Exception:
@@ -141,6 +155,14 @@ def load_findings(prop):
     return [e for e in data.get("findings", []) if e.get("property") == prop]
 
 
+def fatal_signal(status):
+    """signal number if a worker was killed by a memory/arith fault raised by the code it was
+    running (not by the watchdog, the OOM killer or an operator), else None"""
+    if os.WIFSIGNALED(status) and os.WTERMSIG(status) in (signal.SIGSEGV, signal.SIGBUS, signal.SIGFPE, signal.SIGILL, signal.SIGABRT):
+        return os.WTERMSIG(status)
+    return None
+
+
 def key_hash(key):
     return hashlib.sha256(key.encode()).hexdigest()[:10]
 
@@ -209,7 +231,7 @@ def run_engine(engine, prop, argv=None):
             rp = json.load(fh)
         res = run_pool([rp], engine.replay, nproc=1, case_timeout=1800)[0]
         if res is None or "crashed" in res or "harness_error" in res:
-            if res and "crashed" in res and rp.get("violation", {}).get("key", "").startswith("crash"):
+            if res and "crashed" in res and "crash" in rp.get("violation", {}).get("key", "").split(":"):
                 print("VIOLATION property=%s replay=%s (reproduced crash)" % (prop, args.replay))
                 return 1
             print("HARNESS-ERROR property=%s stage=replay %r" % (prop, res), flush=True)
